@@ -41,6 +41,12 @@ What is enumerated (LEVEL exploration: exhaustive products of finite alphabets, 
   body   wsgi_max_body_size L x body sizes {0, L-1, L, L+1, L+3} x delivery (1 message, 3 messages, stream style,
          limit crossed early with more messages pending, no `body` key) x shapes
   ws     WebSocket scopes
+  loops  (middleware seams) HISTORIES of one middleware object over event loops: the middleware is constructed outside any
+         running loop - with an idle loop current, as at import time, or with no current loop at all -, inside an earlier
+         loop that has been closed before the request is served, or serves one request under a first loop and, that
+         loop closed, another under a second loop (asyncio); constructed outside trio.run / serving under two
+         successive trio.run (trio); x every application shape and chunking x 2 requests; each served request has
+         its own recorder behind the one middleware object and is judged by the same oracle
   e2e    sub-alphabets of the above as real HTTP/1.1 and HTTP/2 byte streams
 
 Oracle clauses (expected values from mc/x_c17_ref.py: PEP 3333 / RFC 3875 / ASGI spec, nothing from hypercorn)
@@ -83,7 +89,8 @@ TECHNIQUE = ("bounded exhaustive enumeration (cartesian products of finite reque
              "thread, on real asyncio and trio loops, on a bare virtual loop and end-to-end on the virtual-time engine "
              "with a lock-step executor (gated / failing ASGI sends, paused / slow / resetting peers so that drain() "
              "blocks); reference PEP 3333 environ builder, response model and thread-bridge ordering model as oracle")
-RULE = ("case = seam x request spec x application shape x body limit x body delivery [x send behaviour | peer behaviour]; "
+RULE = ("case = seam x request spec x application shape x body limit x body delivery [x send behaviour | peer behaviour | "
+        "loop history of the middleware object]; "
         "one execution per case; non-trivial = the WSGI callable was invoked or a refusal (400 / 404 / websocket close) "
         "was decided; distinct by digest of (environ snapshot, application event log, messages / parsed response seen "
         "by the client, logged errors, and - lock-step seams - the send counters the application thread saw)")
@@ -104,6 +111,9 @@ ASSUMPTIONS = [
     "arrival order); gates open oldest first; on the real-loop seams the send counters are only reproducible while "
     "the bridge is synchronous, so they are judged but kept out of the outcome digest",
     "flow group end to end: the slow peer reads a whole transport buffer at a time; one request per connection",
+    "loops group: loops follow one another (never two running at once); a loop that served is shut down (default "
+    "executor joined) and closed before the next one starts; the idle 'import time' loop is never run while a request is "
+    "served (afterwards the harness runs it once to release any thread still bridged to it, then closes it)",
 ]
 BOUNDS_DOC = {
     "quick": "env: two sub-products (12 targets x 5 roots x 3 queries x 4 header sets x 2 scope variants x GET/POST; "
@@ -111,10 +121,11 @@ BOUNDS_DOC = {
              "app: full product of 19 shapes x 3 statuses x 4 header sets x 6 chunkings (854 programs x 2 requests); "
              "body: L in {0,4} x 5 sizes x up to 6 deliveries x 3 shapes; all on the 4 direct seams; flow: 12 shapes x "
              "2 heads x 4 chunkings x 5 send behaviours (all gated; send 0..3 raises) = 450 cases on each of the 4 "
-             "real-loop seams and the 2 lock-step seams; e2e sub-alphabets on h1 and h2, e2e flow: 12 shapes x 3 "
+             "real-loop seams and the 2 lock-step seams; loops: 19 shapes x 6 chunkings x 2 requests x 4 loop histories "
+             "(mw:asyncio) / 2 (mw:trio); e2e sub-alphabets on h1 and h2, e2e flow: 12 shapes x 3 "
              "chunkings (two of them 70 kB per chunk) x 4 peer behaviours = 136 cases per carrier",
     "thorough": "env: the full product of every request axis (77 760 requests) on each of the 4 direct seams; "
-                "app/body as quick plus L in {1,65536}; flow and e2e as quick",
+                "app/body as quick plus L in {1,65536}; flow, loops and e2e as quick",
 }
 BUDGET = {"quick": 300, "thorough": 1100}
 
@@ -261,6 +272,13 @@ def direct_cases(tier: str, group: str, seam: str) -> List[tuple]:
                     spec = (kind, status, rh, "one" if kind in KIND_IGNORES_CHUNKS else ch)
                     for mode in FLOW_MODES:
                         cases.append((seam, rq, spec, 64, "1", mode))
+    elif group == "loops":
+        reqs = [http_req("GET", b"/"), http_req("POST", b"/app/x", b"q=1", "/app", "repeated", body_n=3)]
+        for hist in LOOP_HISTORIES[seam]:
+            for rq in reqs:
+                for spec in app_specs():
+                    if spec[1] == STATUSES[0] and spec[2] == "ct":
+                        cases.append((seam, rq, spec, 64, "1", "L:" + hist))
     elif group == "ws":
         for p in (b"/", b"/app/ws"):
             for r in ("", "/app"):
@@ -343,6 +361,11 @@ FLOW_MODES = ("g", "gf0", "gf1", "gf2", "gf3")  # every send gated; gf<j>: send 
 FLOW_SEAMS = DIRECT_SEAMS + ("tg:vloop", "mw:vloop")
 # e2e flow group: what the peer does while the response is produced (it is not reading when the request arrives)
 E2E_PEERS = ("slow", "stall", "reset", "slow-reset")
+# loops group: where / under which loop the ONE middleware object is constructed and which loops it then serves under
+LOOP_HISTORIES = {
+    "mw:asyncio": ("outside", "outside-nocurrent", "earlier-closed", "two-loops"),
+    "mw:trio": ("outside", "two-runs"),
+}
 
 
 def scenarios(tier: str) -> List[Any]:
@@ -356,6 +379,10 @@ def scenarios(tier: str) -> List[Any]:
         n = len(cases_of(tier, "flow", seam))
         nb = max(1, (n + BATCH - 1) // BATCH)
         out.extend(("batch", "flow", seam, i, nb) for i in range(nb))
+    for seam in LOOP_HISTORIES:
+        n = len(cases_of(tier, "loops", seam))
+        nb = max(1, (n + BATCH - 1) // BATCH)
+        out.extend(("batch", "loops", seam, i, nb) for i in range(nb))
     for seam in ("e2e:h1", "e2e:h2"):
         for group in ("env", "app", "body", "flow"):
             n = len(cases_of(tier, group, seam))
@@ -882,6 +909,156 @@ def run_direct(seam: str, scope: dict, messages: List[dict], app: Callable, L: i
     return out
 
 
+class _loop_policy_state:
+    """The process-wide 'current event loop' slot is put back as it was (histories set it on purpose)."""
+
+    def __enter__(self) -> None:
+        import warnings
+
+        self.local = asyncio.get_event_loop_policy()._local  # type: ignore[attr-defined]
+        self.saved = (getattr(self.local, "_loop", None), getattr(self.local, "_set_called", False))
+        self.warn = warnings.catch_warnings()
+        self.warn.__enter__()
+        warnings.simplefilter("ignore", DeprecationWarning)
+
+    def __exit__(self, *a: Any) -> None:
+        self.local._loop, self.local._set_called = self.saved
+        self.warn.__exit__(*a)
+
+
+def run_loop_history(seam: str, hist: str, make_scope: Callable[[], dict], messages: List[dict], spec: tuple,
+                     L: int) -> List[Tuple[Rec, Out]]:
+    """mw:asyncio / mw:trio - ONE middleware object (wrapping one WSGI callable) is constructed where `hist` says and
+    then serves one request per loop; every served request gets a fresh recorder behind the same callable."""
+    served: List[Tuple[Rec, Out]] = []
+    current: List[Optional[Callable]] = [None]
+
+    def wsgi_app(environ: Any, start_response: Callable) -> Any:
+        return current[0](environ, start_response)  # type: ignore[misc]
+
+    def begin() -> Out:
+        rec, out = Rec(), Out()
+        out.loop_thread = threading.get_ident()
+        current[0] = make_app(spec, rec)
+        served.append((rec, out))
+        return out
+
+    def not_constructed(e: BaseException, n: int) -> List[Tuple[Rec, Out]]:
+        for _ in range(n):  # the requests this object was going to serve get nothing
+            begin().raised = "construction:" + type(e).__name__
+        return served
+
+    if seam == "mw:asyncio":
+        from hypercorn.middleware.wsgi import AsyncioWSGIMiddleware
+
+        def construct() -> Any:
+            return AsyncioWSGIMiddleware(wsgi_app, L)
+
+        async def serve(mw: Any) -> None:
+            out = begin()
+            live = [True]
+            q: asyncio.Queue = asyncio.Queue()
+            for m in messages:
+                q.put_nowait(dict(m))
+
+            async def send(m: Any) -> None:
+                if live[0]:
+                    out.sent.append(_copy_msg(m))
+
+            try:
+                await asyncio.wait_for(mw(make_scope(), q.get, send), WATCHDOG_S)
+            except asyncio.TimeoutError:
+                out.problems.append("watchdog: the middleware did not finish")
+            except Exception as e:
+                out.raised = type(e).__name__
+            live[0] = False
+
+        def finish(loop: Any, ran: bool = True) -> None:
+            try:
+                # (an idle loop that was never meant to run: run it now so that a thread still bridged to it ends)
+                loop.run_until_complete(asyncio.wait_for(loop.shutdown_default_executor(), 10.0))
+            except Exception:
+                pass
+            loop.close()
+
+        with _loop_policy_state():
+            if hist in ("outside", "outside-nocurrent"):
+                idle = None
+                if hist == "outside":
+                    idle = asyncio.new_event_loop()  # the loop that is current, and idle, at "import time"
+                    asyncio.set_event_loop(idle)
+                else:
+                    asyncio.set_event_loop(None)
+                try:
+                    try:
+                        mw = construct()
+                    except Exception as e:
+                        return not_constructed(e, 1)
+                    b = asyncio.new_event_loop()
+                    try:
+                        b.run_until_complete(serve(mw))
+                    finally:
+                        finish(b)
+                finally:
+                    if idle is not None:
+                        finish(idle)
+            elif hist in ("earlier-closed", "two-loops"):
+                box: List[Any] = []
+
+                async def first() -> None:
+                    box.append(construct())
+                    if hist == "two-loops":
+                        await serve(box[0])
+
+                a = asyncio.new_event_loop()
+                try:
+                    try:
+                        a.run_until_complete(first())
+                    except Exception as e:
+                        return not_constructed(e, 2 if hist == "two-loops" else 1)
+                finally:
+                    finish(a)
+                b = asyncio.new_event_loop()
+                try:
+                    b.run_until_complete(serve(box[0]))
+                finally:
+                    finish(b)
+            else:
+                raise ValueError(hist)
+        return served
+
+    import trio
+    from hypercorn.middleware.wsgi import TrioWSGIMiddleware
+
+    async def tserve(mw: Any) -> None:
+        out = begin()
+        tx, rx = trio.open_memory_channel(len(messages) + 1)
+        for m in messages:
+            tx.send_nowait(dict(m))
+
+        async def send(m: Any) -> None:
+            out.sent.append(_copy_msg(m))
+
+        with trio.move_on_after(WATCHDOG_S) as cs:
+            try:
+                await mw(make_scope(), rx.receive, send)
+            except Exception as e:
+                out.raised = type(e).__name__
+        if cs.cancelled_caught:
+            out.problems.append("watchdog: the middleware did not finish")
+
+    try:
+        tmw = TrioWSGIMiddleware(wsgi_app, L)
+    except Exception as e:
+        return not_constructed(e, 2 if hist == "two-runs" else 1)
+    for _ in range(2 if hist == "two-runs" else 1):
+        try:
+            trio.run(tserve, tmw)
+        except BaseExceptionGroup as e:
+            served[-1][1].problems.append(f"task group failed: {type(e).__name__}")
+    return served
+
+
 _LOCKSTEP = [False]
 
 
@@ -1136,6 +1313,8 @@ def execute(params: Any, prefix: List[int]) -> ExecResult:
     mode = case[5] if len(case) > 5 else None  # flow groups: send behaviour (direct) / peer behaviour (e2e)
     rq, spec = tuple(rq), tuple(spec)
     case = (seam, rq, spec, L, split) + ((mode,) if mode is not None else ())
+    if mode is not None and mode.startswith("L:"):
+        return _execute_loops(case)
     rec = Rec()
     if mode is not None:
         rec.flow = Flow()
@@ -1170,6 +1349,34 @@ def execute(params: Any, prefix: List[int]) -> ExecResult:
         if out.view is not None:
             print("   client view:", _short(out.view), " e2e:", out.e2e)
     return ExecResult([], viol, digest(obs), nontrivial, (), sample)
+
+
+def _execute_loops(case: tuple) -> ExecResult:
+    seam, rq, spec, L, split, mode = case
+    req = req_of(seam, rq)
+    served = run_loop_history(seam, mode[2:], lambda: ref.asgi_scope(req, rq[10]), request_messages(req.body, split), spec, L)
+    viol: List[dict] = []
+    obs: List[Any] = []
+    nontrivial = False
+    for k, (rec, out) in enumerate(served):
+        v, o, nt = judge(case, rec, out)
+        for x in v:
+            x["detail"] = f"request #{k + 1} of {len(served)} served by this middleware object: " + x["detail"]
+        viol += v
+        obs.append(o)
+        nontrivial = nontrivial or nt
+    sample = {"case": repr(case)[:300], "served": len(served), "invocations": [r.invocations for r, _ in served],
+              "events": [r.events[:12] for r, _ in served], "sent": [[repr(m)[:120] for m in o.sent[:4]] for _, o in served],
+              "raised": [o.raised for _, o in served]}
+    if os.environ.get("MC_VERBOSE"):
+        print("case:", case)
+        for k, (rec, out) in enumerate(served):
+            print(f"request #{k + 1}: app events:", rec.events, " invocations:", rec.invocations, " close:", rec.close_count,
+                  " app thread != loop thread:", [t != out.loop_thread for t in rec.threads])
+            for m in out.sent:
+                print("   sent:", repr(m)[:200])
+            print("   raised:", out.raised, " problems:", out.problems)
+    return ExecResult([], viol, digest(tuple(obs)), nontrivial, (), sample)
 
 
 _REPORTED: set = set()  # per worker process: each (clause, key) is handed to the framework once, with its first witness
